@@ -120,6 +120,11 @@ def run(prog: Program, res: Result) -> None:
             f"the score table is not built from a list created empty in this execute() call (`{acc}`): rows of an earlier call "
             f"(another task, another grid) are ranked together with this call's grid points",
             key="hypertuner.HyperTuner.execute::fresh-rows")
+    from ..shared_state import class_level_shared
+    for (attr, node, hit, m) in class_level_shared(prog, prog.cls(f"{PKG}.hypertuner.HyperTuner")):
+        bad("R1-rows-of-this-call-only", node,
+            f"HyperTuner.{attr} is a class-level mutable object that {m.name}() changes in place (`{norm(hit, 50)}`): rows of other "
+            f"calls and other tuners are ranked together with this call's grid points", key=f"hypertuner.HyperTuner::{attr}")
     # the map ranges over n_trials items and calls __run__
     if len(maps) == 1:
         m = maps[0]
